@@ -927,8 +927,8 @@ where
     T: Hash + Eq,
     str: Equivalent<T>,
 {
-    let (from, replaced) = set.replace_full(rule);
-
+    // Resolve the positions before modifying the set, so that an error leaves it unchanged.
+    // Replacing a rule or appending a new one below doesn't change the index of the other rules.
     let mut to = default_position;
 
     if let Some(rule_id) = after {
@@ -945,8 +945,17 @@ where
         to = idx;
     }
 
+    let (from, replaced) = set.replace_full(rule);
+
     // Only move the item if it's new or if it was positioned.
     if replaced.is_none() || after.is_some() || before.is_some() {
+        // `to` is a position in the set as it is now. Removing the rule from a lower position
+        // shifts the rules in between down by one, and the final position must be in the set.
+        if from < to {
+            to -= 1;
+        }
+        let to = to.min(set.len() - 1);
+
         set.move_index(from, to);
     }
 
